@@ -128,7 +128,7 @@ class Layout(Suite):
     go_cmd = "c33"
     coq_imports = "From GoGit Require Import Model.WtRoute."
     quick_n = 14
-    thorough_n = 200
+    thorough_n = 50
 
     def gen(self, rng, n, tier):
         cases = []
